@@ -555,10 +555,13 @@ func (pck *pebbleEngCheckpoint) Save(path string, notify chan struct{}) error {
 	if pck.pe.IsClosed() {
 		return errDBEngClosed
 	}
+	// pebble copies the live WAL files as the last step of Checkpoint(): the view of the
+	// checkpoint is fixed only when Checkpoint() returns.  Releasing the apply loop earlier
+	// (it used to be a 20ms timer) lets entries after the snapshot index into the checkpoint,
+	// and they are applied a second time when the raft log is replayed after a restore.
+	err := pck.pe.eng.Checkpoint(path)
 	if notify != nil {
-		time.AfterFunc(time.Millisecond*20, func() {
-			close(notify)
-		})
+		close(notify)
 	}
-	return pck.pe.eng.Checkpoint(path)
+	return err
 }
